@@ -4,7 +4,7 @@
    The model is generic in the carrier [P] of points and in the binary
    operation [mid] (and the level-1 vertices [base]); it is instantiated
      - at the free term algebra [pt] (Base k | Mid a b): exact, syntactic;
-     - at a hash algebra over N (a homomorphic image of the terms; used by the
+     - at a hash algebra over primitive 63-bit integers (a homomorphic image of the terms; used by the
        correspondence for deep positions where terms have 2^n nodes);
      - at unit vectors of R^3 in Geom/ToastReal.v (not executable).
 
@@ -18,7 +18,8 @@
      toast.py 474-512  create_single_tile
      toast.py 515-572  generate_tiles, generate_tiles_filtered
      _libtoasty.pyx 44-127  _subsample / subsample *)
-From Coq Require Import List NArith Arith Bool.
+From Coq Require Import List NArith ZArith Arith Bool.
+From Coq Require Uint63.
 From Toasty Require Import Model.Quadtree.
 Import ListNotations.
 Local Open Scope N_scope.
@@ -326,19 +327,24 @@ Fixpoint vertex1 (cs : coordsys) (m : nat) (i j : N) : pt :=
 Definition vertex (cs : coordsys) (n : nat) (i j : N) : pt := vertex1 cs (pred n) i j.
 
 (* ---------------------------------------------------------------- hash instance *)
-(* A homomorphic image of the terms in N, used by the correspondence harness:
-   the same combination is computed by the recording [mid] in harness/toast_terms.py. *)
-Definition hash_M : N := 2305843009213693951.       (* 2^61 - 1 *)
-Definition hash_A : N := 1315423911420697.
-Definition hash_B : N := 2654435761987643.
-Definition hash_C : N := 88172645463325252.
-Definition hbase (k : N) : N := ((k + 1) * 6364136223846793005) mod hash_M.
-Definition hmid (a b : N) : N := (a * hash_A + b * hash_B + hash_C) mod hash_M.
-Fixpoint hash (p : pt) : N :=
+(* A homomorphic image of the terms in the primitive 63-bit integers (arithmetic modulo
+   2^63, evaluated natively by vm_compute), used by the correspondence harness: the same
+   combination is computed by the recording [mid] in harness/toast_terms.py.  The
+   combination is not symmetric, so the argument order of every mid call matters. *)
+Notation int := Uint63.int.
+Definition i63 (z : Z) : int := Uint63.of_Z z.
+Definition hash_K0 : int := Eval vm_compute in i63 6364136223846793005.
+Definition hash_A : int := Eval vm_compute in i63 1315423911420697.
+Definition hash_B : int := Eval vm_compute in i63 2654435761987643.
+Definition hash_C : int := Eval vm_compute in i63 88172645463325252.
+Definition hbase (k : N) : int := Uint63.mul (Uint63.add (i63 (Z.of_N k)) (i63 1)) hash_K0.
+Definition hmid (a b : int) : int :=
+  Uint63.add (Uint63.add (Uint63.mul a hash_A) (Uint63.mul b hash_B)) hash_C.
+Fixpoint hash (p : pt) : int :=
   match p with Base k => hbase k | Mid a b => hmid (hash a) (hash b) end.
-Definition htile := gtile N.
+Definition htile := gtile int.
 Definition tile_hash (t : tile) : htile :=
   mkT (tpos t) (hash (c_ul t)) (hash (c_ur t)) (hash (c_lr t)) (hash (c_ll t)) (incr t).
 Definition htile_eqb (s t : htile) : bool :=
-  pos_eqb (tpos s) (tpos t) && N.eqb (c_ul s) (c_ul t) && N.eqb (c_ur s) (c_ur t)
-  && N.eqb (c_lr s) (c_lr t) && N.eqb (c_ll s) (c_ll t) && Bool.eqb (incr s) (incr t).
+  pos_eqb (tpos s) (tpos t) && Uint63.eqb (c_ul s) (c_ul t) && Uint63.eqb (c_ur s) (c_ur t)
+  && Uint63.eqb (c_lr s) (c_lr t) && Uint63.eqb (c_ll s) (c_ll t) && Bool.eqb (incr s) (incr t).
